@@ -259,6 +259,8 @@ structure St (σ : Type) where
   /-- 0 = finished normally, 1 = model fuel exhausted, 2 = singular Gram matrix (`unwrap` panic) -/
   bad : Nat := 0
   S : Rat := 0
+  /-- branch codes of the step evaluations (Niggli only; coverage instrumentation, most recent first) -/
+  br : List Nat := []
 
 def St.push {σ} (B0 : QM3) (st : St σ) (s : σ) (m : M3) : St σ :=
   let T' := st.T.mul m
@@ -274,6 +276,8 @@ structure Res where
   frag : Bool
   bad : Nat
   nsteps : Nat
+  /-- branch codes taken (Niggli), see `niggliBranch` -/
+  br : List Nat := []
 deriving Repr
 
 /-! ## Minkowski -/
@@ -407,7 +411,7 @@ def minkowskiT (B0 : QM3) (exact : Bool) : M3 :=
 
 def minkowskiRes (B0 : QM3) (exact : Bool) : Res :=
   let st := minkowskiDecide B0 exact
-  ⟨minkowskiT B0 exact, st.frag, st.bad, st.tr.length⟩
+  ⟨minkowskiT B0 exact, st.frag, st.bad, st.tr.length, []⟩
 
 /-- `√p + off < √q`, i.e. `v.norm() + EPS < norms[k]`. -/
 def klenLt (p q off d : Rat) : K := klenGt q p off d
@@ -490,6 +494,44 @@ def niggliStep (p : NParams) (k : Nat) (d : Rat) : Bool × NStep × Bool :=
       | _ => (.s8, false)
     (fired, s, amb || (fired && asg))
 
+/-- Coverage instrumentation: which branch of `stepK` the exact evaluation takes (`10·k + j`).
+`j = 0`: condition false, no tie.  Steps 1, 2: `1` strict (`A > B`), `2` tie and secondary true (fires),
+`3` tie and secondary false.  Step 3: `1` fires.  Step 4: `0` early return (all negative), `1` fires without
+repair, `2,3,4` fires with the `i·j·k = -1` repair through `p = 0,1,2`, `5` not applicable (type I).
+Steps 5, 6, 7: `1` strict (`|ξ| > B`), `2` tie `ξ = B` fires, `3` tie `ξ = B` secondary false,
+`4` tie `ξ = -B` fires, `5` tie `ξ = -B` secondary false.  Step 8: `1` strict (`Σ < 0`), `2` tie `Σ = 0`
+fires (`2(A+η)+ζ > 0`), `3` tie `Σ = 0` secondary false. -/
+def niggliBranch (p : NParams) (k : Nat) : Nat :=
+  let gt (x : Rat) : Bool := decide (EPS < x)
+  let z (x : Rat) : Bool := decide (absR x < EPS)
+  let sx := sign0 p.xi
+  let sy := sign0 p.eta
+  let sz := sign0 p.zeta
+  let two (d : Rat) (sec : Bool) : Nat := if gt d then 1 else if z d then (if sec then 2 else 3) else 0
+  let three (m bnd sec1 sec2 : Rat) : Nat :=
+    if gt (absR m - bnd) then 1
+    else if z (m - bnd) then (if gt sec1 then 2 else if z (m + bnd) ∧ gt sec2 then 4 else 3)
+    else if z (m + bnd) then (if gt sec2 then 4 else 5) else 0
+  10 * k + (match k with
+  | 1 => two (p.a - p.b) (decide (absR p.eta < absR p.xi))
+  | 2 => two (p.b - p.c) (decide (absR p.zeta < absR p.eta))
+  | 3 => if (step3Mat sx sy sz).isSome then 1 else 0
+  | 4 =>
+    if sx = .neg ∧ sy = .neg ∧ sz = .neg then 0
+    else if sx.toInt * sy.toInt * sz.toInt ≤ 0 then
+      let i : Int := if sx = .pos then -1 else 1
+      let j : Int := if sy = .pos then -1 else 1
+      let k' : Int := if sz = .pos then -1 else 1
+      if i * j * k' = -1 then (if sz = .zero then 4 else if sy = .zero then 3 else 2) else 1
+    else 5
+  | 5 => three p.xi p.b (p.zeta - 2 * p.eta) (-p.zeta)
+  | 6 => three p.eta p.a (p.zeta - 2 * p.xi) (-p.zeta)
+  | 7 => three p.zeta p.a (p.eta - 2 * p.xi) (-p.eta)
+  | 8 =>
+    let s := p.xi + p.eta + p.zeta + p.a + p.b
+    if s < -EPS then 1 else if z s then (if gt (2 * (p.a + p.eta) + p.zeta) then 2 else 3) else 0
+  | _ => 0)
+
 /-- The `while step <= 8` loop of `niggli_reduce`; `visited` is the `CycleChecker`. -/
 def niggliLoop (B0 : QM3) (exact : Bool) : Nat → Nat → List M3 → St NStep → St NStep
   | 0, _, _, st => { st with bad := 1 }
@@ -497,8 +539,9 @@ def niggliLoop (B0 : QM3) (exact : Bool) : Nat → Nat → List M3 → St NStep 
     if step > 8 then st else
     let B := cur B0 st.T
     let tol := st.tol exact B
-    let (branch, s, amb) := niggliStep (NParams.ofBasis B) step (10 * tol.dSq)
-    let st := st.flag amb
+    let prm := NParams.ofBasis B
+    let (branch, s, amb) := niggliStep prm step (10 * tol.dSq)
+    let st := { st.flag amb with br := niggliBranch prm step :: st.br }
     let st := if branch then st.push B0 s s.mat else st
     let step' := if branch && (step = 2 || step = 5 || step = 6 || step = 7 || step = 8) then 1 else step + 1
     if step' = 1 then
@@ -515,7 +558,7 @@ def niggliT (B0 : QM3) (exact : Bool) : M3 :=
 
 def niggliRes (B0 : QM3) (exact : Bool) : Res :=
   let st := niggliDecide B0 exact
-  ⟨niggliT B0 exact, st.frag, st.bad, st.tr.length⟩
+  ⟨niggliT B0 exact, st.frag, st.bad, st.tr.length, st.br⟩
 
 /-- `is_niggli_reduced` with uncertainty `d` on the metric entries (`d = 0`: the literal predicate). -/
 def isNiggliK (B : QM3) (d : Rat) : K :=
@@ -535,6 +578,41 @@ def isNiggliK (B : QM3) (d : Rat) : K :=
     kimp (kabsLt (p.a - absR p.eta) EPS d) (kabsLt p.zeta EPS d),
     kimp (kabsLt (p.a - absR p.zeta) EPS d) (kabsLt p.eta EPS d),
     kimp (kabsLt (p.xi + p.eta + p.zeta - p.a - p.b) EPS d) (kge (absR p.eta + absR p.zeta - p.a) (-EPS) d)]
+  let branch : K :=
+    match ksign p.xi d, ksign p.eta d, ksign p.zeta d with
+    | some sx, some sy, some sz => some (decide (sx.toInt * sy.toInt * sz.toInt > 0))
+    | _, _, _ => none
+  let main : K :=
+    match branch with
+    | some true => typeI
+    | some false => typeII
+    | none => if typeI = typeII then typeI else none
+  kand common main
+
+/-- The Niggli conditions themselves (Křivý–Gruber 1976 / Int. Tables A 9.2), **not** moyo's predicate:
+compared with `is_niggli_reduced` this also requires `|ζ| ≤ A`, `ξ+η+ζ+A+B ≥ 0` and, on the tie
+`ξ+η+ζ+A+B = 0`, `2(A+η)+ζ ≤ 0` (moyo's predicate tests the premise `ξ+η+ζ = A+B`, which never holds
+for a type-II cell, so it does not enforce this clause).  Thresholds `EPS` as in the loop of
+`niggli_reduce`; `d` = uncertainty of the metric entries (`0` for integer-valued bases). -/
+def niggliSpecK (B : QM3) (d : Rat) : K :=
+  let p := NParams.ofBasis B
+  let common := kall [kge (p.b - p.a) (-EPS) d, kge (p.c - p.b) (-EPS) d, kge (p.b - absR p.xi) (-EPS) d,
+    kge (p.a - absR p.eta) (-EPS) d, kge (p.a - absR p.zeta) (-EPS) d]
+  let typeI := kall [kgt p.xi EPS d, kgt p.eta EPS d, kgt p.zeta EPS d,
+    kimp (kabsLt (p.a - p.b) EPS d) (kge (p.eta - p.xi) (-EPS) d),
+    kimp (kabsLt (p.b - p.c) EPS d) (kge (p.zeta - p.eta) (-EPS) d),
+    kimp (kabsLt (p.b - p.xi) EPS d) (kge (2 * p.eta - p.zeta) (-EPS) d),
+    kimp (kabsLt (p.a - p.eta) EPS d) (kge (2 * p.xi - p.zeta) (-EPS) d),
+    kimp (kabsLt (p.a - p.zeta) EPS d) (kge (2 * p.xi - p.eta) (-EPS) d)]
+  let s := p.xi + p.eta + p.zeta + p.a + p.b
+  let typeII := kall [kle p.xi EPS d, kle p.eta EPS d, kle p.zeta EPS d,
+    kimp (kabsLt (p.a - p.b) EPS d) (kge (absR p.eta - absR p.xi) (-EPS) d),
+    kimp (kabsLt (p.b - p.c) EPS d) (kge (absR p.zeta - absR p.eta) (-EPS) d),
+    kimp (kabsLt (p.b - absR p.xi) EPS d) (kle (absR p.zeta) EPS d),
+    kimp (kabsLt (p.a - absR p.eta) EPS d) (kle (absR p.zeta) EPS d),
+    kimp (kabsLt (p.a - absR p.zeta) EPS d) (kle (absR p.eta) EPS d),
+    kge s (-EPS) d,
+    kimp (kabsLt s EPS d) (kle (2 * (p.a + p.eta) + p.zeta) EPS d)]
   let branch : K :=
     match ksign p.xi d, ksign p.eta d, ksign p.zeta d with
     | some sx, some sy, some sz => some (decide (sx.toInt * sy.toInt * sz.toInt > 0))
@@ -613,7 +691,7 @@ def delaunayT (B0 : QM3) (exact : Bool) : M3 :=
 
 def delaunayRes (B0 : QM3) (exact : Bool) : Res :=
   let st := delaunayDecide B0 exact
-  ⟨delaunayT B0 exact, st.frag, st.bad, st.tr.length⟩
+  ⟨delaunayT B0 exact, st.frag, st.bad, st.tr.length, []⟩
 
 
 /-! ## Proposed repair of the Delaunay selection (not what the pinned code does) -/
@@ -655,7 +733,7 @@ def delaunayTG (B0 : QM3) (exact : Bool) : M3 :=
 
 def delaunayResG (B0 : QM3) (exact : Bool) : Res :=
   let st := delaunayDecideG B0 exact
-  ⟨delaunayTG B0 exact, st.frag, st.bad, st.tr.length⟩
+  ⟨delaunayTG B0 exact, st.frag, st.bad, st.tr.length, []⟩
 
 
 /-! ## The checked public API (`Lattice::minkowski_reduce`, `Lattice::niggli_reduce`) -/
